@@ -254,9 +254,18 @@ class Interp:
                         if 0 <= st[1] < len(v.elems):
                             return v.elems[st[1]]
                         return Top(why="index out of range")
+                    iv = st[2] if len(st) > 2 else None
+                    lt = _linear_table_lookup(v, iv)
+                    if lt is not None:
+                        return lt
+                    el = v.elems
+                    if isinstance(iv, IntV) and 0 <= iv.lo <= iv.hi < len(el):
+                        el = el[iv.lo:iv.hi + 1]
                     r = None
-                    for x in v.elems:
+                    for x in el:
                         r = x if r is None else join(r, x)
+                    if isinstance(r, IntV) and isinstance(iv, IntV) and iv.deps - r.deps:
+                        r = IntV(r.ty, r.bits, r.lo, r.hi, None, r.deps | iv.deps, None, None, r.vset)
                     return r if r is not None else Top(why="index into empty")
                 return v.summary if v.summary is not None else Top(why="index into unknown vec")
             return Top(deps_of(v), "index of %s" % v.kind)
@@ -777,6 +786,10 @@ class Interp:
             return FnV(c.get("instance") or c["fn"])
         if "promoted" in c:
             return ("promoted", c["def"], c["promoted"])
+        if "array" in c and c.get("elem_ty") in INT_TYPES:
+            ety = c["elem_ty"]
+            v = VecV([IntV.const(ety, int(x)) for x in c["array"]], elem_ty=ety)
+            return ("constref", v) if c.get("is_ref") else v
         if c.get("zst"):
             if "{closure" in ty:
                 return ClosureV(ty, ())
@@ -788,6 +801,8 @@ class Interp:
             v = self.const(op["const"])
             if isinstance(v, tuple) and v[0] == "promoted":
                 return self.eval_promoted(state, v[1], v[2])
+            if isinstance(v, tuple) and v[0] == "constref":
+                return RefV(self.new_cell(state, v[1]))
             return v
         pl = op.get("copy") or op.get("move")
         if pl is None:
@@ -1527,6 +1542,62 @@ def taint(v, deps):
     if isinstance(v, TupleV):
         return TupleV([taint(x, deps) for x in v.items])
     return v
+
+
+_LIN_CACHE = {}
+
+
+def _linear_table_lookup(v, iv):
+    """T[idx] for a constant integer table that is GF(2)-linear (T[a^b] = T[a]^T[b], e.g. a CRC byte table) and an index
+    whose bits are known symbolically: every result bit is the XOR of the index bits selected by the basis entries."""
+    if not isinstance(iv, IntV) or iv.bits is None or iv.is_const():
+        return None
+    el = v.elems
+    n = len(el)
+    if n < 2 or n & (n - 1) or n > 65536:
+        return None
+    key = id(v)
+    ent = _LIN_CACHE.get(key)
+    if ent is None or ent[0] is not v:
+        ok = all(isinstance(e, IntV) and e.is_const() and e.lo >= 0 for e in el)
+        basis = None
+        if ok:
+            T = [e.lo for e in el]
+            k = n.bit_length() - 1
+            basis = [T[1 << j] for j in range(k)]
+            if T[0] != 0:
+                ok = False
+            else:
+                for i in range(n):
+                    x = 0
+                    for j in range(k):
+                        if (i >> j) & 1:
+                            x ^= basis[j]
+                    if x != T[i]:
+                        ok = False
+                        break
+        ent = (v, ok, basis)
+        _LIN_CACHE[key] = ent
+    if not ent[1]:
+        return None
+    basis = ent[2]
+    k = len(basis)
+    # the index must be inside the table whatever the symbolic bits are
+    if any(b != 0 for b in iv.bits[k:]):
+        return None
+    ty = el[0].ty
+    w = INT_TYPES[ty][0]
+    out = []
+    for b in range(w):
+        acc = 0
+        for j in range(k):
+            if (basis[j] >> b) & 1:
+                acc = bit_xor(acc, iv.bits[j])
+        out.append(acc)
+    hi = 0
+    for x in basis:
+        hi |= x
+    return IntV(ty, tuple(out), 0, hi, None, iv.deps)
 
 
 class _Variant:
